@@ -10,13 +10,15 @@ from . import parsegen as P
 
 def gen_bytes(rng, kind):
     if kind == "prog":
-        return G.render(G.gen_program(rng)).encode("utf-8")
+        # a program, sometimes preceded by characters a text editor may put first: byte order mark, no-break space, astral
+        pre = rng.choice(["", "", "", "\ufeff", "\ufeff\ufeff", "\u00a0", "\U0001f642", "\u2028", "\ufeff\n"])
+        return (pre + G.render(G.gen_program(rng))).encode("utf-8")
     if kind == "noise":
         return P.gen_malformed(rng, rng.choice([0, 3, 20, 100])).encode("utf-8")
     if kind == "unstructured":
         return P.gen_unstructured(rng, rng.choice([1, 5, 30, 120])).encode("utf-8")
     if kind == "empty":
-        return b""
+        return rng.choice([b"", b"", b"\xef\xbb\xbf", b"\n", b" "])
     # invalid UTF-8 of every flavour
     base = bytearray(G.render(G.gen_program(rng, 3)).encode("utf-8"))
     bad = rng.choice([b"\x80", b"\xc0\x80", b"\xc1\xbf", b"\xe0\x80\x80", b"\xed\xa0\x80", b"\xf0\x80\x80\x80", b"\xf4\x90\x80\x80",
@@ -96,8 +98,8 @@ def run(prop, tier, seed):
         if len(fb) > 2:
             distinct.add((fb, sb, sub, name.split(".", 1)[-1]))
         defined = cls in ("exit0", "exit1") and "panicked at" not in gerr
-        if cls == "exit1" and "[error]" not in gerr and not m.startswith("exit:1"):
-            defined = False
+        if cls == "exit1" and gerr.strip() == "" and not m.startswith("exit:1"):
+            defined = False        # status 1 without any diagnostic (the wording of diagnostics is not fixed by the property)
         if cls == "timeout":
             hist["timeout"] += 1
             continue
@@ -122,11 +124,7 @@ def run(prop, tier, seed):
             if cls != want or po != mo:
                 corr.append((j, cls, m))
         else:
-            if cls != "exit1" or "[error]" not in gerr:
-                corr.append((j, cls, m))
-            elif mk.startswith("diag:enc") and "utf-8 encoding error" not in gerr:
-                corr.append((j, cls, m))
-            elif mk == "diag:ext" and "Only .hyeong extension supported" not in gerr:
+            if cls != "exit1" or gerr.strip() == "":
                 corr.append((j, cls, m))
     seen = set()
     for j, cls, gerr in fails[:20]:
